@@ -20,9 +20,9 @@ IMPORTS = ("Require Import Hdl21.Base.PyInt Hdl21.Model.ParamName Hdl21.Model.Ge
 # ------------------------------------------------------------------------------------------------
 def c_dtype(d):
     t = d[0]
-    if t in ("int", "float", "str", "bool", "ref", "scalar", "pref", "dec", "obj"):
+    if t in ("int", "float", "str", "bool", "ref", "scalar", "pref", "dec", "obj", "mut"):
         return {"int": "DInt", "float": "DFloat", "str": "DStr", "bool": "DBool", "ref": "DRef",
-                "scalar": "DScalar", "pref": "DPref", "dec": "DDec", "obj": "DObj"}[t]
+                "scalar": "DScalar", "pref": "DPref", "dec": "DDec", "obj": "DObj", "mut": "DMut"}[t]
     if t == "opt":
         return f"(DOpt {c_dtype(d[1])})"
     if t == "enum":
@@ -70,6 +70,8 @@ def c_val(v):
         return f"(VRef {v[1]}%N)"
     if t == "o":
         return f"(VObj {v[1]}%N)"
+    if t == "m":
+        return f"(VMut {v[1]}%N)"
     if t == "R":
         return f"(VRec {clist(v[1], c_val)})"
     if t == "?":
@@ -131,26 +133,34 @@ def c_group(g, outs):
 def run_groups(groups, nshard=None):
     """Every history of every group in its own process; the histories of one group are spread over
     interpreters started with different hash seeds."""
-    jobs = []
+    jobs, seeded = [], {}
     for gi, g in enumerate(groups):
         for hi, h in enumerate(g["hists"]):
             # every interpreter of a group shifts its heap by another amount (names must not depend on addresses)
-            jobs.append((gi, hi, dict(univ=g["univ"], table=g["table"], calls=h, builtin=g.get("builtin", False),
-                                      ballast=(hi * 1009 + gi * 17) % 7919)))
+            job = (gi, hi, dict(univ=g["univ"], table=g["table"], calls=h, builtin=g.get("builtin", False),
+                                ballast=(hi * 1009 + gi * 17) % 7919))
+            if g.get("seeds"):
+                # the group names the PYTHONHASHSEED of the interpreter of each of its histories (part of the replay)
+                seeded.setdefault(int(g["seeds"][hi % len(g["seeds"])]), []).append(job)
+            else:
+                jobs.append(job)
     nshard = nshard or max(1, min(core.NPROC, (len(jobs) + 19) // 20))
-    shards = [jobs[i::nshard] for i in range(nshard)]
+    shards = [(str(s * 7919 + 1), jobs[s::nshard]) for s in range(nshard)]
+    for seed, js in sorted(seeded.items()):
+        k = max(1, (len(js) + 59) // 60)
+        shards += [(str(seed), js[i::k]) for i in range(k)]
 
     def one(arg):
-        s, sh = arg
+        seed, sh = arg
         if not sh:
             return []
-        return core.run_worker("c09", dict(jobs=[j[2] for j in sh]), timeout=1500, hashseed=str(s * 7919 + 1))["results"]
+        return core.run_worker("c09", dict(jobs=[j[2] for j in sh]), timeout=1500, hashseed=seed)["results"]
 
-    with ThreadPoolExecutor(max_workers=nshard) as ex:
-        outs = list(ex.map(one, list(enumerate(shards))))
+    with ThreadPoolExecutor(max_workers=max(1, min(core.NPROC, len(shards)))) as ex:
+        outs = list(ex.map(one, shards))
     res = [[None] * len(g["hists"]) for g in groups]
     for s, out in enumerate(outs):
-        for (gi, hi, _), o in zip(shards[s], out):
+        for (gi, hi, _), o in zip(shards[s][1], out):
             if "driver_error" in o:
                 raise RuntimeError(f"c09 driver error on group {gi} history {hi}: {o['driver_error']}")
             res[gi][hi] = o
@@ -208,7 +218,11 @@ DEC_CLASSES = [
     [["D", "-7.5"], ["f", "-7.5"], ["s", "-75e-1"]],
 ]
 NUM_CLASSES = {"scalar": SCALAR_CLASSES, "pref": PREF_CLASSES, "dec": DEC_CLASSES}
-NREF = 12
+NREF = 16
+# UNHASHABLE values (harness/impl/c09.py Universe.mut): lists, dicts, sets - validated, but hash(call) raises
+NMUT = 8
+MUT_KIND = {0: "list", 1: "list", 2: "dict", 3: "set", 4: "list_of_lists", 5: "list", 6: "dict", 7: "set"}
+MUT_VARIANTS = {0: 3, 1: 2, 2: 3, 3: 3, 4: 2, 5: 2, 6: 2, 7: 2}
 # objects WITHOUT a JSON form (harness/impl/c09.py Universe.obj): functions, lambdas, user objects, an Instance ...
 NOBJ = 15
 OBJ_KIND = {0: "function", 1: "lambda", 2: "user_object", 3: "user_value_object", 4: "user_value_object", 5: "instance",
@@ -216,8 +230,9 @@ OBJ_KIND = {0: "function", 1: "lambda", 2: "user_object", 3: "user_value_object"
             12: "lambda", 13: "closure", 14: "closure"}    # 1 / 12 and 13 / 14: different functions with one qualified name
 OBJ_VARIANTS = {3: 3, 4: 2, 8: 2, 9: 2, 10: 2}     # value types: equal objects built separately
 REF_KIND = {0: "module", 1: "module", 8: "module", 2: "generator", 3: "extmodule", 4: "primcall", 5: "primcall", 9: "primcall",
-            6: "extcall", 7: "extcall", 10: "frozenset", 11: "frozenset"}
-REF_VARIANTS = {4: 4, 5: 3, 6: 3, 7: 3, 9: 3, 10: 3, 11: 2}
+            6: "extcall", 7: "extcall", 10: "frozenset", 11: "frozenset",
+            12: "frozenset_of_frozensets", 13: "frozenset_members_with_equal_str", 14: "frozenset_of_frozensets", 15: "frozenset_members_with_equal_str"}
+REF_VARIANTS = {4: 4, 5: 3, 6: 3, 7: 3, 9: 3, 10: 3, 11: 2, 12: 3, 13: 3, 14: 2, 15: 2}
 
 _EXACT = Context(prec=MAX_PREC, Emax=MAX_EMAX, Emin=MIN_EMIN)
 
@@ -271,11 +286,11 @@ def F(x):
     return ["f", repr(float(x))]
 
 
-def gen_dtype(r, depth=1):
-    k = r.choices(["int", "float", "str", "bool", "opt", "enum", "ref", "rec", "scalar", "pref", "dec", "obj"],
-                  [5, 4, 6, 1, 5, 2, 3, 2 if depth > 0 else 0, 6, 1, 2, 1])[0]
+def gen_dtype(r, depth=2):
+    k = r.choices(["int", "float", "str", "bool", "opt", "enum", "ref", "rec", "scalar", "pref", "dec", "obj", "mut"],
+                  [5, 4, 6, 1, 5, 2, 3, 3 if depth > 0 else 0, 6, 1, 2, 1, 1])[0]
     if k == "opt":
-        return ["opt", [r.choice(["int", "float", "str", "scalar", "scalar", "dec", "obj", "obj"])]]
+        return ["opt", [r.choice(["int", "float", "float", "str", "scalar", "scalar", "dec", "obj", "obj", "mut"])]]
     if k == "enum":
         return ["enum", r.choice([2, 3])]
     if k == "rec":
@@ -321,6 +336,9 @@ def gen_value(r, d, bad=0.0):
     if t == "obj":
         i = r.choice([0, 1, 2, 3, 3, 4, 5, 8, 9, 12, 13, 14]) if r.random() < 0.8 else r.randrange(NOBJ)
         return ["o", i, r.randrange(OBJ_VARIANTS.get(i, 1))]
+    if t == "mut":
+        i = r.randrange(NMUT)
+        return ["m", i, r.randrange(MUT_VARIANTS[i])]
     if t == "enum":
         return ["e", r.randrange(d[1]), r.choice(["member", "value"])]
     if t == "ref":
@@ -350,6 +368,14 @@ def gen_class(r, scalar_only):
     # defaults only on a suffix of the fields (dataclass rule)
     k = r.randint(0, n)
     for f in fields[k:]:
+        if '"mut"' in json.dumps(f["dtype"]):
+            # a list / dict / set is no default of a dataclass field ("mutable default ... is not allowed")
+            if f["dtype"][0] == "opt":
+                f["default"] = ["n"]
+                continue
+            for ff in fields:
+                ff["default"] = None
+            break
         f["default"] = strip_form(gen_value(r, f["dtype"], 0))
         f["default"] = denan(f["default"])      # NaN is no parameter value, and so no default
     return fields
@@ -399,6 +425,8 @@ def rewrite_args(r, fields, args):
             out.append(["r", a[1], r.randrange(REF_VARIANTS[a[1]])])
         elif a[0] == "o" and a[1] in OBJ_VARIANTS:
             out.append(["o", a[1], r.randrange(OBJ_VARIANTS[a[1]])])
+        elif a[0] == "m":
+            out.append(["m", a[1], r.randrange(MUT_VARIANTS[a[1] % NMUT])])
         elif a[0] == "e":
             out.append(["e", a[1], "value" if a[2] == "member" else "member"])
         elif a[0] == "R":
@@ -427,9 +455,16 @@ def gen_group(r, scalar_only=False, bad=0.0, cyclic=0.0):
         base = [gen_args(r, g["fields"]) for _ in range(r.choice([2, 3, 4]))]
         extra = [rewrite_args(r, g["fields"], a) for a in base if r.random() < 0.7]
         pools.append(base + extra)
+    if r.random() < 0.3:
+        # a NaN at a random float leaf of a random parameter set (any field, any depth of nested param-classes)
+        cand = [(gi, a, p) for gi, g in enumerate(univ) for a in pools[gi] for p in float_leaves(g["fields"], a)]
+        if cand:
+            gi, a, path = r.choice(cand)
+            pools[gi].append(set_leaf(a, path, F(float("nan"))))
     table = []
     # (a NaN is no parameter value: such calls are made by the histories, but are not table entries or nested calls)
-    has_nan = lambda a: '["f", "nan"]' in json.dumps(a)
+    #  likewise a call with an UNHASHABLE value: it has no cache key, the model's table is over keys)
+    has_nan = lambda a: '["f", "nan"]' in json.dumps(a) or '["m", ' in json.dumps(a)
     for gi, g in enumerate(univ):
         for a in pools[gi]:
             if r.random() < 0.45 or has_nan(a) or any(f["default"] is not None and has_nan(f["default"]) for f in g["fields"]):
@@ -464,6 +499,37 @@ def gen_group(r, scalar_only=False, bad=0.0, cyclic=0.0):
         # the caller's retry: every call made again right away (a refused call is refused again, an answered one answered alike)
         hists.append([c[:2] + [r.choice(["kw", "inst"])] for c0 in h3 for c in (c0, c0)])
     return dict(univ=univ, table=table, hists=hists)
+
+
+def float_leaves(fields, args):
+    """paths of the float-typed leaves of a written argument list (any depth of nested param-classes)"""
+    out = []
+
+    def walk(d, v, path):
+        while d[0] == "opt":
+            d = d[1]
+        if v is None or v[0] == "n":
+            return
+        if d[0] == "float" and v[0] in ("f", "i", "b"):
+            out.append(path)
+        elif d[0] == "rec" and v[0] == "R" and len(v[1]) == len(d[1]):
+            for k, (dd, vv) in enumerate(zip(d[1], v[1])):
+                walk(dd, vv, path + [k])
+    for k, (f, a) in enumerate(zip(fields, args)):
+        walk(f["dtype"], a, [k])
+    return out
+
+
+def set_leaf(args, path, val):
+    args = json.loads(json.dumps(args))
+    if len(path) == 1:
+        args[path[0]] = val
+        return args
+    v = args[path[0]]
+    for k in path[1:-1]:
+        v = v[1][k]
+    v[1][path[-1]] = val
+    return args
 
 
 def has_obj(txt):
@@ -546,6 +612,111 @@ def corpus():
     gs.append(dict(univ=u, table=[], hists=hs, tag="negative-zero"))
     gs += corpus_numbers()
     gs += corpus_unnameable()
+    gs += corpus_round3()
+    return gs
+
+
+def M(i, variant=0):
+    return ["m", i, variant]
+
+
+NAN = ["f", "nan"]
+# field shapes of the NaN-position box: every ordered pair (first field, later field) in which the later field holds a float
+NAN_SHAPES = [["int"], ["float"], ["opt", ["float"]], ["rec", [["int"]]], ["rec", [["float"]]], ["rec", [["int"], ["float"]]],
+              ["rec", [["float"], ["int"]]], ["rec", [["rec", [["int"]]], ["float"]]], ["rec", [["rec", [["float"]]], ["int"]]], ["str"]]
+
+
+def plain_value(d):
+    t = d[0]
+    if t == "opt":
+        return plain_value(d[1])
+    if t == "rec":
+        return ["R", [plain_value(dd) for dd in d[1]], "inst"]
+    return {"int": I(3), "float": F(2.5), "str": S("x")}[t]
+
+
+def nan_groups():
+    """NaN at EVERY float leaf of every two-field class shape: before, inside, after, and two levels below a nested
+    param-class; every such call made twice (keywords and instance), between calls that are answered."""
+    shapes = [(a, b) for a in NAN_SHAPES for b in NAN_SHAPES if '"float"' in json.dumps(b)]
+    gs = []
+    per = 7
+    for k in range(0, len(shapes), per):
+        univ, h1, nanc = [], [], []
+        for j, (a, b) in enumerate(shapes[k:k + per]):
+            fields = [dict(name="a", dtype=a, default=None), dict(name="b", dtype=b, default=None),
+                      dict(name="e", dtype=["bool"], default=["b", False])]
+            univ.append(dict(name=f"N{j}", fields=fields))
+            good = [plain_value(a), plain_value(b), None]
+            h1.append([j, good, "kw"])
+            for path in float_leaves(fields, good):
+                bad = set_leaf(good, path, NAN)
+                if j % 2:
+                    bad = [x if x is None or x[0] != "R" else x[:2] + ["dict"] for x in bad]
+                nanc += [[j, bad, "kw"], [j, bad, "inst"]]
+            h1 += nanc[-2:] if nanc else []
+        gs.append(dict(univ=univ, table=[], tag=f"nan-position-{k // per + 1}",
+                       hists=[h1 + nanc, list(reversed(nanc)) + [c for c in h1 if c not in nanc], nanc[::2]]))
+    return gs
+
+
+def set_calls():
+    return [[0, [["r", i, v], None], "kw" if v % 2 else "inst"] for i in (10, 11, 12, 13, 14, 15) for v in range(REF_VARIANTS[i])]
+
+
+def corpus_round3():
+    gs = []
+    # 24. UNHASHABLE parameter values (list / dict / set valued fields).  The cache is a dict keyed by the call: such a call has no
+    #     key.  The tree refuses it (TypeError at the lookup, before anything runs), and refuses it again; what it must never do is
+    #     answer equal calls with different modules (seeded change C09r3-C: run un-cached, every call a new module, one name)
+    fw = [dict(name="weights", dtype=["mut"], default=None), dict(name="k", dtype=["int"], default=I(1))]
+    fh = [dict(name="w", dtype=["int"], default=I(1))]
+    u = [dict(name="Dac", fields=fw), dict(name="H", fields=fh)]
+    D = lambda i, v=0, k=None, form="kw": [0, [M(i, v), None if k is None else I(k)], form]
+    H = lambda w: [1, [I(w)], "kw"]
+    hs = [[D(0), D(0), D(0, 1, None, "inst"), H(1), D(0, 2), D(1), D(1, 1), D(0, 0, 2), D(0, 1, 2), H(1), H(2)],
+          [D(1), H(1), D(0), D(0)],
+          [D(0)],
+          [D(2), D(2, 1), D(2, 2, None, "inst"), D(3), D(3, 1), D(3, 2), D(4), D(4, 1), D(5), D(5, 1), D(6), D(6, 1), D(7), D(7, 1), H(3)],
+          [D(7), D(6), D(5), D(4), D(3, 2), D(2, 1), D(3), D(2)]]
+    gs.append(dict(univ=u, table=[], hists=hs, tag="unhashable-retry"))
+    # 25. optional and nested: None is a value like any other; a container anywhere in the parameters takes the key away
+    fo = [dict(name="n", dtype=["rec", [["opt", ["mut"]], ["int"]]], default=None),
+          dict(name="o", dtype=["opt", ["mut"]], default=["n"])]
+    u = [dict(name="N", fields=fo)]
+    A = lambda o, no, k, form="inst": [0, [["R", [no, I(k)], form], o], "kw"]
+    hs = [[A(None, ["n"], 1), A(["n"], ["n"], 1, "dict"), A(M(0), ["n"], 1), A(M(0, 1), ["n"], 1), A(["n"], M(2), 1), A(None, M(2, 1), 1, "dict"),
+           A(["n"], ["n"], 2), A(["n"], M(3), 2), A(["n"], M(3, 1), 2), A(["n"], ["n"], 1)],
+          [A(["n"], M(2, 1), 1), A(None, ["n"], 1), A(M(0), ["n"], 1), A(["n"], ["n"], 2)],
+          [A(None, ["n"], 2), A(None, ["n"], 1)]]
+    gs.append(dict(univ=u, table=[], hists=hs, tag="unhashable-optional-nested"))
+    # 26. NaN at every float leaf of every class shape
+    gs += nan_groups()
+    return gs
+
+
+def hashseed_groups():
+    """Groups whose histories name the PYTHONHASHSEED of their interpreter: one value, one name in EVERY process."""
+    gs = []
+    u = [dict(name="S", fields=[dict(name="c", dtype=["ref"], default=None), dict(name="k", dtype=["int"], default=I(0))])]
+    calls = set_calls()
+    seeds = list(range(8))
+    hs = [calls[k:] + calls[:k] for k in range(len(seeds))]
+    gs.append(dict(univ=u, table=[], hists=hs, seeds=seeds, tag="set-nested-across-hash-seeds"))
+    # every set value ALONE in a fresh interpreter, under five hash seeds each (its name as the first and only call)
+    firsts = [c for c in calls if c[1][0][2] == 0]
+    for c in firsts:
+        gs.append(dict(univ=u, table=[], hists=[[c]] * 5, seeds=[0, 1, 3, 4, 6], tag=f"set-alone-ref{c[1][0][1]}-across-hash-seeds"))
+    # nested: the set travels through a nested param-class and through a second generator (hand-on)
+    fn = [dict(name="n", dtype=["rec", [["ref"], ["int"]]], default=None)]
+    un = [dict(name="Outer", fields=fn), dict(name="Inner", fields=[dict(name="c", dtype=["ref"], default=None)])]
+    R = lambda i, v, form="inst": [["R", [["r", i, v], I(1)], form]]
+    tn = [dict(gen=0, args=R(12, 0), calls=[[1, [["r", 12, 1]], "kw"]], ret=["pass", 0]),
+          dict(gen=0, args=R(13, 0), calls=[[1, [["r", 15, 1]], "kw"]], ret=["fresh", None])]
+    base = [[0, R(12, 1), "kw"], [0, R(13, 1, "dict"), "kw"], [1, [["r", 12, 2]], "kw"], [1, [["r", 15, 0]], "inst"], [0, R(14, 0), "kw"],
+            [0, R(14, 1), "inst"], [0, R(12, 2, "dict"), "inst"]]
+    gs.append(dict(univ=un, table=tn, hists=[base[k:] + base[:k] for k in range(6)], seeds=[0, 1, 2, 3, 4, 5],
+                   tag="set-nested-hand-on-across-hash-seeds"))
     return gs
 
 
@@ -856,6 +1027,124 @@ def run_values(run, seed, quick, only=None):
     return dict(eq_diff=eq_diff)
 
 
+# ---- stream "setenc": the set branch of hdl21_naming_encoder against Model/C09SetName.v, in interpreters with different
+#      hash seeds; one case = ONE set value, observed several times (members listed in other orders, other hash seeds) ----
+SE_INTS = [0, 1, 2, 10, -1, 12]
+SE_STRS = ["1", "2", "a", "b", "ab", 'a"b', "\\", "x y", "[", "]", ", ", "10", "", "-1", "alpha", "beta", "gamma", "delta", '"', "frozenset()"]
+SE_IMPORTS = ("Require Import Hdl21.Base.PyInt Hdl21.Model.C09SetName Hdl21.Corr.C03 Hdl21.Corr.C09SetEnc.\n"
+              "From Coq Require Import String.\nOpen Scope string_scope.")
+
+
+def se_canon(sp):
+    if sp[0] == "S":
+        return ("S", tuple(sorted({se_canon(x) for x in sp[1]}, key=repr)))
+    return (sp[0], sp[1])
+
+
+def se_gen(r, depth):
+    if depth == 0 or r.random() < 0.35:
+        return ["i", r.choice(SE_INTS)] if r.random() < 0.4 else ["s", r.choice(SE_STRS)]
+    ms, seen = [], set()
+    for _ in range(r.choice([0, 1, 2, 2, 3, 3, 4, 5])):
+        m = se_gen(r, depth - 1)
+        if se_canon(m) not in seen:
+            seen.add(se_canon(m))
+            ms.append(m)
+    return ["S", ms]
+
+
+def se_shuffle(r, sp):
+    if sp[0] != "S":
+        return sp
+    ms = [se_shuffle(r, x) for x in sp[1]]
+    r.shuffle(ms)
+    return ["S", ms]
+
+
+def se_depth(sp):
+    return 1 + max([se_depth(x) for x in sp[1]] + [0]) if sp[0] == "S" else 0
+
+
+def c_sval(sp):
+    if sp[0] == "i":
+        return f"(SInt ({int(sp[1])}))"
+    if sp[0] == "s":
+        return f"(SStr {cstr(sp[1])})"
+    return f"(SSet {clist(sp[1], c_sval)})"
+
+
+SE_CORPUS = [["S", [["S", [["s", "a"], ["s", "b"]]], ["S", [["s", "c"]]]]], ["S", [["i", 1], ["s", "1"]]], ["S", []], ["S", [["S", []]]],
+             ["S", [["s", 'a"b'], ["s", "\\"], ["s", '"']]], ["S", [["S", [["S", [["s", "p"], ["s", "q"]]], ["S", [["s", "r"]]]]], ["S", [["i", 1], ["s", "1"]]]]],
+             ["S", [["s", "alpha"], ["s", "beta"], ["s", "gamma"], ["s", "delta"]]], ["S", [["i", 10], ["i", 2], ["s", "10"], ["s", "2"]]],
+             ["S", [["S", [["i", 1], ["s", "1"]]], ["S", [["s", "1"], ["i", 2]]], ["S", [["i", 1]]]]]]
+
+
+def run_setenc(run, seed, quick, cov, only=None):
+    r = core.rng(seed, "C09", "setenc")
+    if only is not None:
+        values, seeds = [only["value"]], only["seeds"]
+    else:
+        values = list(SE_CORPUS)
+        seen = {se_canon(v) for v in values}
+        for _ in range(220 if quick else 4000):
+            v = se_gen(r, r.choice([1, 2, 2, 3]))
+            if v[0] == "S" and se_canon(v) not in seen:
+                seen.add(se_canon(v))
+                values.append(v)
+        seeds = [0, 1, 2, 3, 4, 5] if quick else list(range(16))
+    values = [v for v in values if ascii_ok(json.dumps(v))]
+    # every value is listed in two member orders; every listing is built in every interpreter
+    listings = [[v, se_shuffle(r, v)] for v in values]
+    flat = [dict(spec=sp) for ls in listings for sp in ls]
+
+    def one(sd):
+        return core.run_worker("c09", dict(setenc=flat), timeout=900, hashseed=str(sd))["results"]
+    with ThreadPoolExecutor(max_workers=max(1, min(core.NPROC, len(seeds)))) as ex:
+        per_seed = list(ex.map(one, seeds))
+    cases, obs_all = [], []
+    for vi, v in enumerate(values):
+        obs = [dict(seed=sd, listing=li, **per_seed[si][2 * vi + li]) for si, sd in enumerate(seeds) for li in (0, 1)]
+        if any("error" in o for o in obs):
+            run.violation("C09:setenc:refused", f"hdl21_naming_encoder refuses the set value {json.dumps(v)}: {json.dumps([o for o in obs if 'error' in o][:1])}",
+                          dict(kind="impl-violates-spec", stream="setenc", value=v, seeds=seeds, observed=obs))
+            continue
+        if not all(ascii_ok(o["text"]) for o in obs):
+            continue
+        cases.append(f"(Build_secase {clist(obs, lambda o: '(' + c_sval(o['iter']) + ', ' + cstr(o['text']) + ')')})")
+        obs_all.append((v, obs))
+    bad = core.coq_eval_cases("C09", "setenc", SE_IMPORTS, "secase", cases, "run_cases chk_setenc", chunk=60)
+    orders = sum(1 for _, obs in obs_all if len({json.dumps(o["iter"]) for o in obs}) > 1)
+    cov["set_encoder_texts_compared_with_the_model"] += sum(len(obs) for _, obs in obs_all)
+    cov["set_encoder_values_iterated_in_different_orders"] += orders
+    run.stream("setenc", sum(len(obs) for _, obs in obs_all), len(obs_all), hash_seeds=seeds,
+               values_iterated_in_more_than_one_order=orders,
+               nested_set_values=sum(1 for v, _ in obs_all if se_depth(v) > 1),
+               values_with_members_of_equal_str=sum(1 for v, _ in obs_all if len({str(x[1]) for x in v[1] if x[0] != "S"}) < sum(1 for x in v[1] if x[0] != "S")),
+               rule="one case = one (nested) set value of ints and strings; evaluations = observations of it: two listings of the members x "
+                    "the hash seeds; observed = the order in which the interpreter iterates over every set, and the JSON text json.dumps writes "
+                    "through hdl21_naming_encoder; specification: one text for one value in every interpreter (code 1); model: the text is "
+                    "C09SetName.enc of the value AS ITERATED (code 2); distinct = set values")
+    v1 = [(i, c) for i, c in bad if c == 1]
+    v2 = [(i, c) for i, c in bad if c != 1]
+    if v1:
+        i, _ = min(v1, key=lambda ic: len(json.dumps(obs_all[ic[0]][0])))
+        v, obs = obs_all[i]
+        texts = sorted({(o["seed"], o["text"]) for o in obs})
+        run.violation("C09:setenc:" + json.dumps(v), f"one set-valued parameter is written differently by the naming encoder from process to process: "
+                      f"{json.dumps(v)} -> {json.dumps(texts)[:400]}",
+                      dict(kind="impl-violates-spec", stream="setenc", value=v, seeds=seeds, observed=obs, failing_values=len(v1),
+                           reproducer="PYTHONHASHSEED=<seed> python -c 'json.dumps(<frozenset>, default=hdl21.params.hdl21_naming_encoder, sort_keys=True)'"))
+    elif v2:
+        i, _ = v2[0]
+        v, obs = obs_all[i]
+        run.violation("C09:setenc:tie", f"model (C09SetName.enc) and hdl21_naming_encoder differ on the set value {json.dumps(v)}",
+                      dict(kind="correspondence-broken", stream="setenc", value=v, seeds=seeds, observed=obs, disagreeing_values=len(v2),
+                           theorem="C09 correspondence stream setenc"), found_input=False)
+    if obs_all:
+        v, obs = obs_all[len(obs_all) // 2]
+        run.sample(dict(stream="setenc", value=v, observed=obs[:2]))
+
+
 def malformed(r, n):
     gs = []
     for _ in range(n):
@@ -889,6 +1178,130 @@ TARGETS += ["calls_ref_frozenset", "calls_refused_for_a_nan_parameter", "fields_
            ["unnameable_" + k for k in sorted(set(OBJ_KIND.values()))]
 
 
+# strengthening round 3: unhashable values, NaN at every position, set values across hash seeds
+TARGETS += ["calls_ref_frozenset_of_frozensets", "calls_ref_frozenset_members_with_equal_str",
+            "set_value_named_in_interpreters_with_different_hash_seeds", "set_of_sets_named_in_interpreters_with_different_hash_seeds",
+            "set_value_first_call_of_its_interpreter_under_different_hash_seeds",
+            "fields_unhashable", "fields_optional_or_nested_unhashable", "calls_refused_for_unhashable_parameters",
+            "unhashable_call_repeated_in_one_interpreter", "equal_unhashable_values_built_separately_pairs",
+            "unhashable_call_refused_in_two_fresh_interpreters", "call_answered_after_an_unhashable_refusal",
+            "nan_refused_in_a_field_before_a_nested_paramclass", "nan_refused_inside_a_nested_paramclass",
+            "nan_refused_in_a_field_after_a_nested_paramclass", "nan_refused_inside_a_second_nested_paramclass",
+            "nan_refused_two_levels_down", "nan_call_repeated_in_one_interpreter",
+            "set_encoder_texts_compared_with_the_model", "set_encoder_values_iterated_in_different_orders"] + \
+           ["unhashable_" + k for k in sorted(set(MUT_KIND.values()))]
+
+
+def muts_in(fields, args):
+    out = []
+
+    def walk(v):
+        if v is None:
+            return
+        if v[0] == "m":
+            out.append((v[1] % NMUT, v[2] if len(v) > 2 else 0))
+        elif v[0] == "R":
+            for x in v[1]:
+                walk(x)
+    for f, a in zip(fields, args):
+        walk(a if a is not None else f.get("default"))
+    return out
+
+
+def nan_positions(fields, args):
+    """where the NaNs of a written argument list sit relative to the nested param-class valued fields"""
+    out = set()
+    recs_before = 0
+    for f, a in zip(fields, args):
+        d = f["dtype"]
+        while d[0] == "opt":
+            d = d[1]
+        a = a if a is not None else f.get("default")
+        if a is None:
+            continue
+        if d[0] == "rec" and a[0] == "R":
+            txt = json.dumps(a[1])
+            if '["f", "nan"]' in txt:
+                out.add("nan_refused_inside_a_second_nested_paramclass" if recs_before else "nan_refused_inside_a_nested_paramclass")
+                if any(x and x[0] == "R" and '["f", "nan"]' in json.dumps(x[1]) for x in a[1]):
+                    out.add("nan_refused_two_levels_down")
+            recs_before += 1
+        elif a[:2] == ["f", "nan"]:
+            out.add("nan_refused_in_a_field_after_a_nested_paramclass" if recs_before else "nan_before")
+    if "nan_before" in out:
+        out.discard("nan_before")
+        if recs_before:
+            out.add("nan_refused_in_a_field_before_a_nested_paramclass")
+    return out
+
+
+def measure_round3(cov, g, outs):
+    univ = g["univ"]
+    for gen in univ:
+        for f in gen["fields"]:
+            for d, depth in walk_dtypes(f["dtype"]):
+                if d[0] == "mut":
+                    cov["fields_unhashable"] += 1
+                    if depth > 0:
+                        cov["fields_optional_or_nested_unhashable"] += 1
+    rej_in, variants = {}, {}
+    set_names = {}      # (gen, value id) of an answered call with a set-valued argument -> {hash seed: first call?}
+    for hi, (h, o) in enumerate(zip(g["hists"], outs)):
+        rej_keys, nan_keys, seen_mut_rej = {}, {}, False
+        for k, (c, x) in enumerate(zip(h, o["obs"])):
+            if c[0] >= len(univ) or len(c[1]) != len(univ[c[0]]["fields"]):
+                continue
+            fields = univ[c[0]]["fields"]
+            muts = muts_in(fields, c[1])
+            ids = arg_ids(fields, c[1])
+            key = (c[0], ids[0]) if ids else None
+            if x[0] == "rej" and muts and key:
+                cov["calls_refused_for_unhashable_parameters"] += 1
+                for i, _ in muts:
+                    cov["unhashable_" + MUT_KIND[i]] += 1
+                rej_keys[key] = rej_keys.get(key, 0) + 1
+                variants.setdefault(key, set()).add(tuple(v for _, v in muts))
+                seen_mut_rej = True
+            if x[0] == "rej" and key:
+                pos = nan_positions(fields, c[1])
+                for t in pos:
+                    cov[t] += 1
+                if pos or '["f", "nan"]' in json.dumps(c[1]):
+                    nan_keys[key] = nan_keys.get(key, 0) + 1
+            if x[0] == "acc":
+                if seen_mut_rej:
+                    cov["call_answered_after_an_unhashable_refusal"] += 1
+                if g.get("seeds") and key:
+                    kinds = {REF_KIND[a[1] % NREF] for a in flat_vals(c[1]) if a[0] == "r"}
+                    if kinds & {"frozenset", "frozenset_of_frozensets", "frozenset_members_with_equal_str"}:
+                        d = set_names.setdefault((key, tuple(sorted(kinds))), {})
+                        seed = g["seeds"][hi % len(g["seeds"])]
+                        d[seed] = d.get(seed, False) or k == 0
+        cov["unhashable_call_repeated_in_one_interpreter"] += sum(1 for n in rej_keys.values() if n > 1)
+        cov["nan_call_repeated_in_one_interpreter"] += sum(1 for n in nan_keys.values() if n > 1)
+        for k in rej_keys:
+            rej_in[k] = rej_in.get(k, 0) + 1
+    cov["unhashable_call_refused_in_two_fresh_interpreters"] += sum(1 for n in rej_in.values() if n > 1)
+    cov["equal_unhashable_values_built_separately_pairs"] += sum(len(v) * (len(v) - 1) // 2 for v in variants.values())
+    for (key, kinds), d in set_names.items():
+        if len(d) > 1:
+            cov["set_value_named_in_interpreters_with_different_hash_seeds"] += 1
+            if "frozenset_of_frozensets" in kinds:
+                cov["set_of_sets_named_in_interpreters_with_different_hash_seeds"] += 1
+            if sum(1 for v in d.values() if v) > 1:
+                cov["set_value_first_call_of_its_interpreter_under_different_hash_seeds"] += 1
+
+
+def flat_vals(args):
+    for a in args:
+        if a is None:
+            continue
+        if a[0] == "R":
+            yield from flat_vals(a[1])
+        else:
+            yield a
+
+
 def walk_dtypes(d, depth=0):
     yield d, depth
     if d[0] == "opt":
@@ -913,6 +1326,8 @@ def arg_ids(fields, args):
             ids.append(value_id(d[0], a))
         elif a[0] == "r":
             ids.append(("r", a[1]))
+        elif a[0] == "m":
+            ids.append(("m", a[1] % NMUT))
         elif d[0] == "rec" and a[0] == "R" and len(a[1]) == len(d[1]):
             sub = arg_ids([dict(dtype=dd) for dd in d[1]], a[1])
             if sub is None:
@@ -1006,6 +1421,7 @@ def measure_refusals(cov, g, outs):
 
 def measure(cov, g, outs):
     measure_refusals(cov, g, outs)
+    measure_round3(cov, g, outs)
     univ = g["univ"]
     for gen in univ:
         for f in gen["fields"]:
@@ -1142,6 +1558,9 @@ def run(run, tier, seed, replay=None):
     if replay is not None and "case" in replay:
         run_values(run, seed, quick, only=replay["case"])
         return
+    if replay is not None and "value" in replay:
+        run_setenc(run, seed, quick, {t: 0 for t in TARGETS}, only=replay)
+        return
     total_hist = 0
     cov = {t: 0 for t in TARGETS}
     # ------------------------------------------------------------------ corpus
@@ -1169,6 +1588,33 @@ def run(run, tier, seed, replay=None):
                pairs_of_parameter_sets=npairs, tags=[g.get("tag") for g, _ in keep], skipped_unprintable=skipped,
                rule="every pair of parameter sets of a value box inside one history and its reverse; distinct = boxes")
     report(run, "box", res)
+    # ------------------------------------------------------------------ hash seeds: every history in an interpreter whose
+    # PYTHONHASHSEED the group names (set-valued parameters, sets of sets, members with equal str(); value objects)
+    hg = hashseed_groups()
+    for g in cg:
+        if g.get("tag") in ("set-valued", "ref-kinds", "unnameable-value-objects", "unhashable-retry"):
+            hg.append(dict(g, seeds=[(3 * k + 1) % 11 for k in range(len(g["hists"]))], tag=g["tag"] + "-across-hash-seeds"))
+    k, n_hs = 0, (24 if quick else 400)
+    while sum(1 for g in hg if not g.get("tag")) < n_hs and k < 40 * n_hs:
+        g = gen_group(core.rng(seed, "C09", "hashseed", k), cyclic=0.02)
+        k += 1
+        if any(t in json.dumps(g["univ"]) for t in ('"ref"', '"obj"', '"mut"')):
+            g["seeds"] = [(5 * i + k) % 13 for i in range(len(g["hists"]))]
+            hg.append(g)
+    keep, res, skipped = evaluate(run, "hashseed", hg, chunk=4)
+    for g, o in keep:
+        measure(cov, g, o)
+    nh = sum(len(g["hists"]) for g, _ in keep)
+    total_hist += nh
+    run.stream("hash-seeds", nh, len({shrink_key(g) for g, _ in keep if nontrivial(g)}), groups=len(keep),
+               tags=[g.get("tag") for g, _ in keep if g.get("tag")], skipped_unprintable=skipped,
+               distinct_hash_seeds=len({sd for g, _ in keep for sd in g["seeds"]}),
+               rule="evaluations = histories, each in an interpreter started with the PYTHONHASHSEED the group names for it (kept in the "
+                    "replay); set-valued parameters (flat, nested, members with equal str()) built in other orders, each value also alone; "
+                    "random groups with reference / object / container valued fields; specification and model as in corpus")
+    report(run, "corpus", [x for x in res if x[0].get("tag")])
+    report(run, "hashseed", [x for x in res if not x[0].get("tag")])
+    run_setenc(run, seed, quick, cov)
     # ------------------------------------------------------------------ values (validation / == / hash of the number-like values)
     vstat = run_values(run, seed, quick)
     # ------------------------------------------------------------------ structured random
